@@ -135,3 +135,9 @@ ENTRIES = [
     N('short-read-protocol-error', "        if bytes_left > 0:\n            raise NetworkError('Connection closed.')", "        if bytes_left > 0:\n            raise ProtocolError('Connection closed.')"),
     N('keep-alive-test-order', "        if not self._keep_alive or should_close:", "        if should_close or not self._keep_alive:"),
 ]
+
+NVF = 'wpull/namevalue.py'
+ENTRIES += [
+    B('regress-header-splitlines', "        lines = split_lines(unfold_lines(string))\n", "        lines = unfold_lines(string).splitlines()\n", 'C08-D5', NVF),
+    B('regress-unfold-splitlines', "    lines = split_lines(string)\n    line_buffer = io.StringIO()", "    lines = string.splitlines()\n    line_buffer = io.StringIO()", 'C08-D5', NVF),
+]
